@@ -83,13 +83,14 @@ package node
 //@ pred isExpr(n ByteCoder) bool := dyntype(n) == typeid[Int]() || dyntype(n) == typeid[Float]() || dyntype(n) == typeid[String]() || dyntype(n) == typeid[Bool]()
 //@     || dyntype(n) == typeid[List]() || dyntype(n) == typeid[Name]() || dyntype(n) == typeid[Local]() || dyntype(n) == typeid[Closure]() || dyntype(n) == typeid[Function]()
 //@     || dyntype(n) == typeid[Call]() || dyntype(n) == typeid[BinOp]() || dyntype(n) == typeid[UnOp]() || dyntype(n) == typeid[IndexAt]() || dyntype(n) == typeid[IndexFromTo]()
-//@     || dyntype(n) == typeid[Read]() || dyntype(n) == typeid[Write]() || dyntype(n) == typeid[Aton]() || dyntype(n) == typeid[Toa]() || dyntype(n) == typeid[Exit]()
+
 //@ pred exprOK(n ByteCoder) bool := isExpr(n) && wfAST(n)
 //@ type ByteCoder.byteCode [C05,C12]
 //@   params self, srcsel, fl, cr
 //@   requires[sel] 0 <= srcsel && srcsel <= 2
 //@   requires[ast] wfAST(self)
 //@   requires[cr]  crOK(cr)
+//@   requires[stmt_depth] !isExpr(self) ==> fl.Data().OpDepth == 0   // statements (and builtin bodies) are compiled at operator depth 0
 //@   modifies *cr.CS, allelems(*cr.CS), *cr.DS, allelems(*cr.DS), mapof(*cr.Dbg)
 //@   ensures[K2_code]  csKept(cr) && csNewWF(cr)
 //@   ensures[K2_data]  dsKept(cr) && crOK(cr)
